@@ -95,7 +95,10 @@ BuildEngine* currentEngine = nullptr;
 std::atomic<bool> cancelIssued{false};
 std::atomic<bool> buildActive{false};
 
+int buildMode = 0;          // 0 hook-driven, 1 free completion threads, 2 = 1 + cancellation from a foreign thread
 void doCancel();
+std::mutex cancellerMu;
+std::vector<std::thread> cancellers;
 int crashFd = -1;          // >= 0 in the forked child of a `K` op: die before the crashAt-th event (or before the commit)
 U64 crashAt = 0;
 void ev(const std::string& s) {
@@ -116,7 +119,15 @@ void ev(const std::string& s) {
     // takes the same non-recursive mutex; a foreign thread would simply block until it is released)
     if (cancelAtEvent && events.size() >= cancelAtEvent && buildActive && !cancelIssued && s != "QC") fire = true;
   }
-  if (fire) doCancel();
+  if (fire) {
+    if (buildMode == 2) {
+      // cancellation from a FOREIGN thread that is neither the engine thread nor the completing one
+      std::lock_guard<std::mutex> g(cancellerMu);
+      cancellers.emplace_back([] { doCancel(); });
+    } else {
+      doCancel();
+    }
+  }
 }
 void doCancel() {
   if (cancelIssued.exchange(true)) return;
@@ -230,7 +241,6 @@ std::mutex pendMu;
 std::map<U64, DslTask*> pendingDeferred;     // computing deferred tasks not yet completed, by key
 std::set<DslTask*> liveTasks;
 std::atomic<int> callbacksAfterReturn{0};
-int buildMode = 0;
 std::vector<std::thread> workers;
 
 struct DslTask : public Task {
@@ -292,7 +302,7 @@ struct DslTask : public Task {
     for (auto d : ds) ti.discoveredDependency(KeyType(keyName(d)));
     tiSaved = ti;
     if (!s.deferred) { complete(); return; }
-    if (buildMode == 1) {
+    if (buildMode >= 1) {
       // free-running completion on a worker thread
       U64 delay = (s.key * 7919) % 300;
       workers.emplace_back([this, delay] { usleep(delay); complete(); });
@@ -332,10 +342,34 @@ class QD : public basic::ExecutionQueueDelegate {
 
 RuleSpec missingSpec;
 
+// The execution queue handed to the engine: forwards to a serial queue and watches its own lifetime.  `cancelAllJobs()`
+// takes a little while (as it does on a real lane queue that signals processes); if the queue is DESTROYED while a
+// `cancelAllJobs()` call is still inside it - the engine released the queue under a concurrent `cancelBuild()` - the
+// use-after-destruction is recorded and reported with the trace of the build (token `QV`).
+std::atomic<int> queueViolations{0};
+struct WatchQueue : public basic::ExecutionQueue {
+  std::unique_ptr<basic::ExecutionQueue> inner;
+  std::atomic<int> inCancel{0};
+  WatchQueue(basic::ExecutionQueueDelegate& d) : basic::ExecutionQueue(d), inner(basic::createSerialQueue(d, nullptr)) {}
+  ~WatchQueue() override { if (inCancel.load() != 0) queueViolations++; }
+  void addJob(basic::QueueJob job, basic::QueueJobPriority priority) override { inner->addJob(job, priority); }
+  void cancelAllJobs() override {
+    inCancel++;
+    if (buildMode == 2) usleep(400);
+    inner->cancelAllJobs();
+    inCancel--;
+  }
+  void executeProcess(basic::QueueJobContext* context, ArrayRef<StringRef> commandLine,
+                      ArrayRef<std::pair<StringRef, StringRef>> environment, basic::ProcessAttributes attributes,
+                      llvm::Optional<basic::ProcessCompletionFn> completionFn, basic::ProcessDelegate* delegate) override {
+    inner->executeProcess(context, commandLine, environment, attributes, completionFn, delegate);
+  }
+};
+
 struct Delegate : public BuildEngineDelegate {
   std::unique_ptr<basic::ExecutionQueue> createExecutionQueue() override {
     ev("QC");   // the engine increments its epoch right after creating the queue
-    return basic::createSerialQueue(qd, nullptr);
+    return std::unique_ptr<basic::ExecutionQueue>(new WatchQueue(qd));
   }
   std::unique_ptr<Rule> lookupRule(const KeyType& key) override {
     ev("L " + keyNum(key));
@@ -397,7 +431,7 @@ bool completeSmallest() {
   return completeKey(k);
 }
 void hook(int point, BuildEngine*) {
-  if (buildMode == 1) return;
+  if (buildMode >= 1) return;
   if (point == 2) { completeSmallest(); return; }
   bool any = false;
   if (schedPos < sched.size()) {
@@ -494,12 +528,18 @@ std::string runBuild(U64 key) {
   alarm(0);
   for (auto& w : workers) w.join();
   workers.clear();
+  {
+    std::vector<std::thread> cs;
+    { std::lock_guard<std::mutex> g(cancellerMu); cs.swap(cancellers); }
+    for (auto& c : cs) c.join();
+  }
   buildActive = false;
   currentEngine = nullptr;
   ev(r);
   size_t live;
   { std::lock_guard<std::mutex> g(pendMu); live = liveTasks.size(); }
   ev("Z " + std::to_string(live) + " " + std::to_string((int)callbacksAfterReturn));
+  if (queueViolations.exchange(0) != 0) ev("QV");
   std::string out;
   std::lock_guard<std::mutex> g(evMu);
   for (size_t i = 0; i < events.size(); i++) { if (i) out += " ; "; out += events[i]; }
